@@ -422,4 +422,12 @@ theorem close_bank_only_dust {L : Ledger} (hi : Inv L)
   have h2 := habs _ _ hc.2
   constructor <;> omega
 
+/-! ### the numbers of the property text (constants regenerated from the real crates on every run) -/
+
+/-- "sub-0.0001-unit dust": the tolerance every closure tests against is 0.0001 of a native unit to the last bit of
+    I80F48 (⌊2^48 / 10000⌋), and a position counts as empty below ONE share -/
+theorem dust_is_a_ten_thousandth :
+    Mfi.Gen.ZERO_AMOUNT_THRESHOLD * 10000 ≤ Mfi.Fx.ONE ∧ Mfi.Fx.ONE < (Mfi.Gen.ZERO_AMOUNT_THRESHOLD + 1) * 10000 ∧
+    Mfi.Gen.EMPTY_BALANCE_THRESHOLD = Mfi.Fx.ONE := by decide
+
 end Mfi.Props.C02
